@@ -102,6 +102,9 @@ class Script:
         if k == "struct":
             s = self.prog.find(t[1])
             return {fn: self.value(ft, "field") for fn, ft in s.fields}
+        if k == "obox" and pos == "cbarg":
+            # Rust creates an object and hands it over for good: the foreign callback owns it and has to destroy it
+            return {"tmp": r.getrandbits(16)}
         if k == "oref" and pos == "cbarg":
             # Rust creates a temporary object, lends it to the callback and drops it afterwards (ids are assigned when the call is scripted)
             return {"tmp": r.getrandbits(16)}
@@ -311,7 +314,15 @@ class Script:
         -> (Rust statements creating them, Rust argument expressions, DROP lines to append after CBRET)"""
         from emit_rust import value_expr
         pre, exprs, drops = [], [], []
+        self.cb_during = []          # records expected between CB and CBRET: objects the callback was given for good and destroys itself
         for i, (a, av) in enumerate(zip(argtypes, argvals)):
+            if a[0] == "obox" and isinstance(av, dict):
+                av["id"] = self.next_id
+                self.next_id += 1
+                lines.append(("R", "NEW %s#%d" % (a[1], av["id"])))
+                exprs.append("Box::new(crate::%s::%s::vf_new(%d))" % ([m.name for m in self.prog.modules if self.prog.find(a[1]) in m.items][0], a[1], av["tmp"]))
+                self.cb_during.append(("R", "DROP %s#%d" % (a[1], av["id"])))
+                continue
             if a[0] == "oref" and isinstance(av, dict):
                 av["id"] = self.next_id
                 self.next_id += 1
@@ -403,6 +414,7 @@ class Script:
             hobj.cb["inv"].append((cargs_v, cret))
             tpre, texprs, tdrops = self.lend_temporaries(ht[1], cargs_v, lines, "h%d" % j)
             lines.append(("C", "CB %d#%d%s" % (hobj.cb["cb"], j, "".join(" " + self.canon(a, av) for a, av in zip(ht[1], cargs_v)))))
+            lines += self.cb_during
             lines.append(("R", "CBRET %s" % ("()" if ht[2] == ("unit",) else self.canon(ht[2], cret))))
             lines += tdrops
             effects.append("{ %s let vf_r = (self.held)(%s); crate::vf::log(format!(\"CBRET {}\", crate::vf::c(&vf_r))); }" % (" ".join(tpre), ", ".join(texprs)))
@@ -412,6 +424,7 @@ class Script:
                 for j, (cargs_v, cret) in enumerate(cbv["inv"]):
                     tpre, texprs, tdrops = self.lend_temporaries(pt[1], cargs_v, lines, "c%d" % j)
                     lines.append(("C", "CB %d#%d%s" % (cbv["cb"], j, "".join(" " + self.canon(a, av) for a, av in zip(pt[1], cargs_v)))))
+                    lines += self.cb_during
                     lines.append(("R", "CBRET %s" % ("()" if pt[2] == ("unit",) else self.canon(pt[2], cret))))
                     lines += tdrops
                     call = "%s(%s)" % (rust_ident(pn), ", ".join(texprs))
@@ -422,6 +435,7 @@ class Script:
                     mname, _, margs, mret = pt[2][mi]
                     tpre, texprs, tdrops = self.lend_temporaries(margs, targs_v, lines, "t%d" % j)
                     lines.append(("C", "CB %d#%d %s%s" % (trv["cb"], j, mname, "".join(" " + self.canon(a, av) for a, av in zip(margs, targs_v)))))
+                    lines += self.cb_during
                     lines.append(("R", "CBRET %s" % ("()" if mret == ("unit",) else self.canon(mret, tret))))
                     lines += tdrops
                     call = "%s.%s(%s)" % (rust_ident(pn), mname, ", ".join(texprs))
